@@ -240,3 +240,12 @@ for Atomic<'static, ItemType, BUFFER_SIZE, MAX_STREAMS> {
     }
 
 }
+
+#[cfg(feature = "verif")]
+impl<'a, ItemType: Send + Sync + Debug + Default, const BUFFER_SIZE: usize, const MAX_STREAMS: usize>
+crate::verif::VerifState for Atomic<'a, ItemType, BUFFER_SIZE, MAX_STREAMS> {
+    fn verif_state(&self, out: &mut Vec<u64>) {
+        self.streams_manager.verif_state(out);
+        self.channel.verif_state(out);
+    }
+}
